@@ -71,7 +71,7 @@ def _multiplet(draw):
     p2 = 1 << (tot - 1).bit_length()
     parts[-1] += p2 - tot
     offs = [draw(st.floats(-8e-3, 8e-3)) for _ in range(n)]
-    return {"offs": offs, "num": parts, "den": p2}
+    return {"offs": offs, "num": parts, "den": p2, "form": draw(st.sampled_from(["list", "ndarray"]))}
 
 
 @st.composite
@@ -204,7 +204,7 @@ def _two(pts, va, vb, vc):
     return f
 
 
-def build(case, pol=None, integrator=None, alt=None):
+def build(case, pol=None, integrator=None, alt=None, frozen_n=False):
     b = Built()
     el = getattr(EL, case["el"])
     dhat = _direction(case)
@@ -238,7 +238,15 @@ def build(case, pol=None, integrator=None, alt=None):
     elif cls == "multiplet":
         mu = case["multiplet"]
         table = [[wl * (1 + o) for o in mu["offs"]], [n / mu["den"] for n in mu["num"]]]
-        m = MultipletLineShape(line, wl, sp, plasma, ad, table)
+        if mu.get("form") == "ndarray":
+            # a C-contiguous float64 array owned by the caller, who goes on using it: after the model is built the array is
+            # overwritten (ratios x 4.5, wavelengths shifted) - the model must not have kept a reference to it
+            table = np.array(table, dtype=np.float64)
+            m = MultipletLineShape(line, wl, sp, plasma, ad, table)
+            table[1, :] *= 4.5
+            table[0, :] += 3.0
+        else:
+            m = MultipletLineShape(line, wl, sp, plasma, ad, table)
     elif cls == "ztriplet":
         m = ZeemanTriplet(line, wl, sp, plasma, ad, pol)
     elif cls == "pztriplet":
@@ -264,8 +272,13 @@ def build(case, pol=None, integrator=None, alt=None):
         beam.element = getattr(EL, ms["bel"])
         b.beam = beam
         s2p = ms["s2p"]
-        m = BeamEmissionMultiplet(line, wl, beam, ad, (lambda n, e: (s2p[0] + s2p[1] * e) * _nfac(n)), (lambda n: ms["s1s0"] * _nfac(n)),
-                                  (lambda n: ms["p2p3"] / _nfac(n)), (lambda n: ms["p4p3"] * _nfac(n) ** 2))
+        if frozen_n:
+            nf0 = _nfac(case["ne"])
+            m = BeamEmissionMultiplet(line, wl, beam, ad, (lambda n, e: (s2p[0] + s2p[1] * e) * nf0), (lambda n: ms["s1s0"] * nf0),
+                                      (lambda n: ms["p2p3"] / nf0), (lambda n: ms["p4p3"] * nf0 ** 2))
+        else:
+            m = BeamEmissionMultiplet(line, wl, beam, ad, (lambda n, e: (s2p[0] + s2p[1] * e) * _nfac(n)), (lambda n: ms["s1s0"] * _nfac(n)),
+                                      (lambda n: ms["p2p3"] / _nfac(n)), (lambda n: ms["p4p3"] * _nfac(n) ** 2))
         bd = list(ms["bdir"])
         if math.sqrt(sum(x * x for x in bd)) < 1e-3:
             bd = [0.0, 0.0, 1.0]
@@ -667,6 +680,16 @@ def run(case, ctx):
     # (7) MSE: resolved components carry the stated ratios
     if cls == "mse":
         _mse_ratios(case, ctx, b, Rr, lo, hi)
+        # (7b) the ratio functions are documented as functions of the electron density (and beam energy): a model whose ratio
+        # functions are *frozen* at the plasma's n_e must give the same spectrum, resolved or not (each function evaluated at
+        # anything else - T_e, another density - shows, because the four functions depend on n_e differently)
+        with ctx.cut("construct"):
+            bf = build(case, frozen_n=True)
+        with ctx.cut("add_line"):
+            gf = add(bf, case, Rr, wmin, wmax, bins)
+        ctx.close(got * d, gf * d, "mse-ratio-arguments", rtol=0, atol=1e-12 * Rr + 1e-14 * dens * d,
+                  info="(ratio functions of n_e vs the same functions frozen at n_e = %r)" % case["ne"])
+        ctx.label("mse-ratio-arguments")
 
     # ---- non-triviality
     th = case["theta"] % 180.0
@@ -711,6 +734,7 @@ def _mse_ratios(case, ctx, b, Rr, lo, hi):
     want = [i_pi * p4, i_pi * p3, i_pi * p2, i_sig * s1, i_sig * s0, i_sig * s1, i_pi * p2, i_pi * p3, i_pi * p4]
     ctx.close(sum(want), 1.0, "mse-oracle-selfcheck", rtol=0, atol=1e-12)
     masses = [float(s[a:bb].sum() * d) for a, bb in runs]
+    # resolved = nine separated peaks each holding a plausible share (spurious denormal islands are not peaks)
     # resolved = nine separated peaks each holding a plausible share (spurious denormal islands are not peaks)
     if len(runs) == 9 and min(want) >= 0.01 and all(m >= 0.25 * min(want) * Rr for m in masses):
         ctx.close(masses, [Rr * x for x in want], "mse-ratios", rtol=0, atol=1e-9 * Rr)
@@ -796,10 +820,13 @@ def run_fine_stark(case, ctx):
                   lambda: "fixed-order rule (order %d): total %r, expected %r" % (final["max_order"], tot_g, tot_e))
         ctx.nt(comps[0][3] > 0)
         return
-    if final["relative_tolerance"] > 1e-10 or final["min_order"] > 1:
-        # the sharp absolute tolerance below is stated for relative_tolerance 1e-10 starting at order 1
+    if final["relative_tolerance"] > 1e-10:
+        # the sharp absolute tolerance below is stated for relative_tolerance 1e-10 (any starting order: a rule that starts
+        # at a higher order stops no earlier)
         ctx.nt(comps[0][3] > 0)
         return
+    if final["min_order"] > 1:
+        ctx.label("integrator:min_order>1")
     exp0 = expected_bins(comps, Rr, wmin, wmax, bins)
     exp1 = expected_bins(components(case, pol, sigscale=1 + 1e-9, shiftscale=1 + 3e-8), Rr, wmin, wmax, bins)
     slack = np.abs(exp1 - exp0) * d
